@@ -68,6 +68,8 @@ def doc_kwargs(doc):
         kw[name + "_dyn"] = list(val)
     if doc.get("boost") not in (None, 1.0):
         kw["_boost"] = doc["boost"]
+    if doc.get("tboost") is not None:
+        kw["_t_boost"] = doc["tboost"]
     return kw
 
 
